@@ -7,6 +7,7 @@ package main
 import (
 	"fmt"
 	"go/types"
+	"strings"
 
 	"golang.org/x/tools/go/ssa"
 )
@@ -83,13 +84,43 @@ func (g *Gen) bufSetLen(st *State, r, l string) {
 	st.heap[bufLenKey] = g.def("H", "(Array Int Int)", fmt.Sprintf("(store %s %s %s)", g.bufLenArr(st, false), r, l))
 }
 
+// frameSink: a function whose frame names its sinks (modifies sink(w) and no `heap`) may append only
+// to those sinks and to buffers it allocated itself.
+func (g *Gen) frameSink(st *State, r string) {
+	if g.c == nil || g.lemma != nil || st.fresh[r] {
+		return
+	}
+	var alts []string
+	for _, m := range g.c.Modifies {
+		if m == "heap" {
+			return
+		}
+		if strings.HasPrefix(m, "sink(") {
+			if v, ok := g.env[strings.TrimSuffix(strings.TrimPrefix(m, "sink("), ")")]; ok {
+				if sr, ok := bufRef(v); ok {
+					alts = append(alts, fmt.Sprintf("(= %s %s)", r, sr))
+				}
+			}
+		}
+	}
+	if len(alts) == 0 {
+		return // no sink frame declared: appends are unchecked (append-only records)
+	}
+	for _, f := range sortedKeysB(st.fresh) {
+		alts = append(alts, fmt.Sprintf("(= %s %s)", r, f))
+	}
+	g.oblige(st, "frame", fmt.Sprintf("frame.sink#%d", g.ord("frame.sink")), g.c.Line, "(or "+strings.Join(alts, " ")+" false)")
+}
+
 func (g *Gen) bufAppendByte(st *State, r, c string) {
+	g.frameSink(st, r)
 	l := g.bufLen(st, r)
 	g.setHs(st, r, fmt.Sprintf("(store (select %s %s) %s %s)", g.hsGet(st), r, l, c))
 	g.bufSetLen(st, r, g.def("bl", "Int", fmt.Sprintf("(+ %s 1)", l)))
 }
 
 func (g *Gen) bufAppendSeq(st *State, r string, s Val) {
+	g.frameSink(st, r)
 	l := g.bufLen(st, r)
 	cur := Val{T: fmt.Sprintf("(select %s %s)", g.hsGet(st), r), Len: l, Off: "0", Kind: "slice"}
 	nv := g.appendSeq(st, cur, s)
